@@ -659,15 +659,15 @@ func (env *evalEnv) call(v *ast.CallExpr) SV {
 			return SV{t: tb.And(tb.Not(tb.Eq(m.t, tb.Int(0))), tb.Select(tb.Select(e.reg(env.st, has), m.t), k.t)), typ: boolT}
 		case "log":
 			w := env.eval(v.Args[0])
-			return SV{wlog: true, t: e.writerRef(w.t, w.typ), typ: types.Typ[types.Int]}
+			return SV{wlog: true, t: env.writerOfSV(w), typ: types.Typ[types.Int]}
 		case "loglen":
 			w := env.eval(v.Args[0])
-			return SV{t: e.logLen(env.st, e.writerRef(w.t, w.typ)), typ: types.Typ[types.Int]}
+			return SV{t: e.logLen(env.st, env.writerOfSV(w)), typ: types.Typ[types.Int]}
 		case "logkind", "logint", "logstr":
 			w := env.eval(v.Args[0])
 			i := env.eval(v.Args[1])
 			name := map[string]string{"logkind": "W:kind", "logint": "W:int", "logstr": "W:str"}[id.Name]
-			t := tb.Select(tb.Select(e.reg(env.st, e.wReg(name)), e.writerRef(w.t, w.typ)), i.t)
+			t := tb.Select(tb.Select(e.reg(env.st, e.wReg(name)), env.writerOfSV(w)), i.t)
 			if id.Name == "logstr" {
 				return SV{t: t, typ: types.Typ[types.String]}
 			}
@@ -871,4 +871,17 @@ func isRefType(t types.Type) bool {
 		return true
 	}
 	return false
+}
+
+// writerOfSV: the writer object a specification expression denotes: a pointer to a buffer, an interface holding one,
+// or a local bytes.Buffer / strings.Builder variable (then the object is the variable's cell).
+func (env *evalEnv) writerOfSV(w SV) *Term {
+	if r := env.e.writerRef(w.t, w.typ); r != nil {
+		return r
+	}
+	if w.addr != nil && w.addr.ref != nil && len(w.addr.path) == 0 {
+		return w.addr.ref
+	}
+	env.fail("not a writer: %s", w.typ)
+	return nil
 }
